@@ -208,11 +208,20 @@ func (r *rw) stmt(s ast.Stmt) ast.Stmt {
 			return r.selectStmt(sel, x.Label)
 		}
 	case *ast.RangeStmt:
-		// A range over a channel cannot be told from other ranges without
-		// types. The only forms recognised syntactically are a receive
-		// expression's operand used directly; everything else is left alone.
-		// (f1 has no range over a channel; an un-rewritten one would block
-		// in the real runtime and be reported as an infrastructure hang.)
+		// A range over a channel cannot be told from other ranges without types
+		// (f1 has none). Ranges with at most one iteration variable - the only
+		// ones a channel can appear in - get their operand wrapped in the generic
+		// identity __vrt.RangeArg, which stops the run with an infrastructure
+		// error (exit 2) if the operand turns out to be a channel, instead of
+		// letting an un-rewritten receive hang in the real runtime.
+		if x.Value == nil && x.X != nil {
+			x.X = r.vrt("RangeArg", r.expr(x.X))
+			if x.Key != nil {
+				x.Key = r.expr(x.Key)
+			}
+			r.walk(x.Body)
+			return x
+		}
 	}
 	r.walk(s)
 	return s
